@@ -106,5 +106,8 @@ TargetsBig == TargetsQuick
            \cup {Tg(<<PlainSeg, p>>, q) : p \in TargetPieces, q \in TargetQueries}
            \cup {Tg(<<p1, p2>>, NoQuery) : p1 \in TargetPieces, p2 \in TargetPieces}
 NoTargets == {}
+\* negative controls only need a witness: a small slice of the space keeps their JVMs cheap
+OneURI == {"/"}
+TargetsFew == {Tg(<<PlainSeg, Pc("Products(1)", "Products%281%29", "sub-delims")>>, NoQuery), Tg(<<PlainSeg>>, [raw |-> "?", norm |-> "", class |-> "none"])}
 
 =============================================================================
